@@ -464,43 +464,62 @@ func runCheck(prop, tier string, only, casesOverride, budgetOverride int) int {
 			}
 		}
 	}
-	for _, pl := range pools {
-		pl := pl
-		deadline := time.Now().Add(time.Duration(budget) * time.Second).Unix()
-		for w := 0; w < W; w++ {
-			wg.Add(1)
-			go func(w int) {
-				defer wg.Done()
-				from := 0
-				for restarts := 0; restarts < 25; restarts++ {
-					mu.Lock()
-					tooMany := len(a.deaths) >= 6
-					mu.Unlock()
-					if tooMany {
-						// enough dead workers to report; do not spend the budget on more
-						return
-					}
-					job := Job{Mode: "run", Prop: prop, Tier: tier, Seed: seed, Worker: w, Workers: W, From: from, To: casesOverride, Deadline: deadline, Known: knownSigs, Only: only, MaxViol: 3}
-					r := runWorker(pl.bin, job, pl.env, 180*time.Second)
-					merge(r)
-					if !r.died {
-						return
-					}
-					mu.Lock()
-					if r.hung {
-						a.hung = true
-					}
-					a.deaths = append(a.deaths, fmt.Sprintf("worker %d died at case %d: %s\n%s", w, r.lastCase, r.exitErr, clip(r.stderr, 4000)))
-					a.deathCase = append(a.deathCase, r.lastCase)
-					mu.Unlock()
-					if r.lastCase < 0 || only >= 0 {
-						return
-					}
-					from = r.lastCase + 1
-				}
-			}(w)
+	// the thorough tier explores the same families under several seeds, sharing the budget
+	seeds := []uint64{seed}
+	if tier == "thorough" && only < 0 {
+		n := 3
+		if s := os.Getenv("VERIF_NSEEDS"); s != "" {
+			if v, err := strconv.Atoi(s); err == nil && v > 0 {
+				n = v
+			}
 		}
-		wg.Wait()
+		for k := 1; k < n; k++ {
+			seeds = append(seeds, seed+uint64(k))
+		}
+		budget = budget / len(seeds)
+	}
+	var deathSeed []uint64
+	for _, seed := range seeds {
+		for _, pl := range pools {
+			pl := pl
+			seed := seed
+			deadline := time.Now().Add(time.Duration(budget) * time.Second).Unix()
+			for w := 0; w < W; w++ {
+				wg.Add(1)
+				go func(w int) {
+					defer wg.Done()
+					from := 0
+					for restarts := 0; restarts < 25; restarts++ {
+						mu.Lock()
+						tooMany := len(a.deaths) >= 6
+						mu.Unlock()
+						if tooMany {
+							// enough dead workers to report; do not spend the budget on more
+							return
+						}
+						job := Job{Mode: "run", Prop: prop, Tier: tier, Seed: seed, Worker: w, Workers: W, From: from, To: casesOverride, Deadline: deadline, Known: knownSigs, Only: only, MaxViol: 3}
+						r := runWorker(pl.bin, job, pl.env, 180*time.Second)
+						merge(r)
+						if !r.died {
+							return
+						}
+						mu.Lock()
+						if r.hung {
+							a.hung = true
+						}
+						a.deaths = append(a.deaths, fmt.Sprintf("worker %d died at case %d: %s\n%s", w, r.lastCase, r.exitErr, clip(r.stderr, 4000)))
+						a.deathCase = append(a.deathCase, r.lastCase)
+						deathSeed = append(deathSeed, seed)
+						mu.Unlock()
+						if r.lastCase < 0 || only >= 0 {
+							return
+						}
+						from = r.lastCase + 1
+					}
+				}(w)
+			}
+			wg.Wait()
+		}
 	}
 
 	// ---- supervise worker deaths -------------------------------------------------
@@ -515,6 +534,7 @@ func runCheck(prop, tier string, only, casesOverride, budgetOverride int) int {
 			fatal2("worker died before its first case:\n%s", d)
 		}
 		// confirm in a fresh process
+		seed := deathSeed[i]
 		job := Job{Mode: "run", Prop: prop, Tier: tier, Seed: seed, Worker: 0, Workers: 1, From: ci, To: ci + 1, Only: ci, Known: knownSigs}
 		r := runWorker(bi.Bin, job, extraEnv, 180*time.Second)
 		if !r.died {
@@ -622,7 +642,7 @@ func runCheck(prop, tier string, only, casesOverride, budgetOverride int) int {
 		"exhaustive":                false,
 		"simulated_runs":            a.stats.Runs,
 		"simulated_runs_per_hour":   int64(runsPerHour),
-		"seeds":                     []uint64{seed},
+		"seeds":                     seeds,
 		"logical_steps":             a.stats.Steps,
 		"filesystem_and_stream_ops": a.stats.Ops,
 		"simulated_time":            "not applicable: gopatch has no clocks or timers; progress is measured in logical steps (yield points) and environment operations",
